@@ -339,7 +339,7 @@ func cmdCheck(id, tier string) int {
 	sort.Strings(ks)
 	for _, k := range ks {
 		parts := strings.SplitN(k, " ", 2)
-		fmt.Printf("KNOWN-FINDING: property=%s %s (hit in %d runs)\n", parts[0], parts[1], known[k])
+		fmt.Printf("KNOWN-FINDING: property=%s %s (hit %d times)\n", parts[0], parts[1], known[k])
 	}
 	if len(vioLines) > 0 {
 		for _, l := range vioLines {
